@@ -155,6 +155,19 @@ func newC11Fix(scheme string, capacity uint) *c11Fix {
 	batch("{2:ab,3:c} other ids", bs, map[hotstuff.ID][]byte{2: []byte("ab"), 3: []byte("c")})
 	batch("{1:ab,2:c} sig labelled {1,3}", relabelSet(scheme, []hotstuff.QuorumSignature{b1, b2}, bs, []hotstuff.ID{1, 3}), map[hotstuff.ID][]byte{1: []byte("ab"), 2: []byte("c")})
 	batch("{1:ab,2:c,3:} extra empty", bs, map[hotstuff.ID][]byte{1: []byte("ab"), 2: []byte("c"), 3: {}})
+	// batches crafted against delimiter schemes: if the key digest separates the per-signer
+	// messages with the signer id and a *constant* k (instead of the message's own length), the two
+	// batches below produce the same byte stream
+	for _, k := range []uint64{0, 1, 2, 3, 8} {
+		sep := append(hotstuff.ID(2).ToBytes(), hotstuff.View(k).ToBytes()...)
+		m1 := append(append([]byte("a"), sep...), 'b')
+		m2 := []byte("c")
+		n1 := []byte("a")
+		n2 := append(append([]byte("b"), sep...), 'c')
+		sg := c.Combine(c.SignBytes(m1, 0)[0], c.SignBytes(m2, 1)[0])
+		batch(fmt.Sprintf("crafted(k=%d) {1:a|sep|b,2:c}", k), sg, map[hotstuff.ID][]byte{1: m1, 2: m2})
+		batch(fmt.Sprintf("crafted(k=%d) {1:a,2:b|sep|c} same stream under constant delimiters", k), sg, map[hotstuff.ID][]byte{1: n1, 2: n2})
+	}
 	// a plain signature over the concatenation, presented as a batch, and vice versa
 	sc := c.Combine(c.SignBytes([]byte("abc"), 0)[0], c.SignBytes([]byte("abc"), 1)[0])
 	add("verify(sig{1,2}(abc), abc)", func(a *cert.Authority, _ *c11Sys) error { return a.Verify(sc, []byte("abc")) })
